@@ -182,6 +182,96 @@ func Touches(before, after map[string]*networkv1beta1.NetworkInterface, calls []
 	return out
 }
 
+// Owner is the harness's ground truth about the pod an address was bound for: the pod
+// object (name and UID) that existed when the controller created or took over the
+// binding. UID is "" only for bindings that were already in the record, without a
+// UID, before the observed history began (taken over from a version that did not
+// record UIDs).
+type Owner struct{ PodID, UID string }
+
+// TrackOwners updates the ground truth after a pass that turned `before` into `after`
+// (both persisted records) while the pod table was `pods`: a binding that is new in
+// `after` belongs to the pod object of that name that existed during the pass; a
+// binding that continues keeps its owner, and learns the UID once the record carries
+// one.
+func TrackOwners(owners map[string]Owner, before, after map[string]*networkv1beta1.NetworkInterface, pods map[string]PodView) {
+	was := map[string]string{}
+	for _, e := range before {
+		for _, m := range []map[string]*networkv1beta1.IP{e.IPv4, e.IPv6} {
+			for k, ip := range m {
+				if ip != nil && ip.PodID != "" {
+					was[k] = ip.PodID
+				}
+			}
+		}
+	}
+	seen := map[string]bool{}
+	for _, e := range after {
+		for _, m := range []map[string]*networkv1beta1.IP{e.IPv4, e.IPv6} {
+			for k, ip := range m {
+				if ip == nil || ip.PodID == "" {
+					continue
+				}
+				seen[k] = true
+				o, known := owners[k]
+				switch {
+				case was[k] == ip.PodID && known && o.PodID == ip.PodID:
+					if ip.PodUID != "" {
+						o.UID = ip.PodUID
+						owners[k] = o
+					}
+				default:
+					uid := ip.PodUID
+					if p, ok := pods[ip.PodID]; ok && uid == "" {
+						uid = p.UID
+					}
+					owners[k] = Owner{PodID: ip.PodID, UID: uid}
+				}
+			}
+		}
+	}
+	for k := range owners {
+		if !seen[k] {
+			delete(owners, k)
+		}
+	}
+}
+
+// WithTruth returns a copy of the record in which a binding that carries no UID gets
+// the UID of its ground-truth owner (if the harness knows one): a reclaim is judged
+// against the pod that really held the address, not against what the record says.
+func WithTruth(rec map[string]*networkv1beta1.NetworkInterface, owners map[string]Owner) map[string]*networkv1beta1.NetworkInterface {
+	out := CopyENIs(rec)
+	for _, e := range out {
+		for _, m := range []map[string]*networkv1beta1.IP{e.IPv4, e.IPv6} {
+			for k, ip := range m {
+				if ip == nil || ip.PodID == "" || ip.PodUID != "" {
+					continue
+				}
+				if o, ok := owners[k]; ok && o.PodID == ip.PodID {
+					ip.PodUID = o.UID
+				}
+			}
+		}
+	}
+	return out
+}
+
+// SeedOwners is the ground truth of a record that exists before the history begins.
+func SeedOwners(rec map[string]*networkv1beta1.NetworkInterface) map[string]Owner {
+	owners := map[string]Owner{}
+	for _, e := range rec {
+		for _, m := range []map[string]*networkv1beta1.IP{e.IPv4, e.IPv6} {
+			for k, ip := range m {
+				if ip != nil && ip.PodID != "" {
+					owners[k] = Owner{PodID: ip.PodID, UID: ip.PodUID}
+				}
+			}
+		}
+	}
+	return owners
+}
+
 // CopyENIs deep-copies a record.
 func CopyENIs(in map[string]*networkv1beta1.NetworkInterface) map[string]*networkv1beta1.NetworkInterface {
 	out := make(map[string]*networkv1beta1.NetworkInterface, len(in))
